@@ -659,8 +659,8 @@ func idList(ms []*net.Message) string {
 
 // ---------- phase 3: dispatch scripts (sets of filters, many messages) ----------
 
-func genDispatchScript(rng *hx.Rng) script {
-	sc := script{Name: "dispatch", Stream: rng.Chance(0.5)}
+func genDispatchScript(rng *hx.Rng) c17script {
+	sc := c17script{Name: "dispatch", Stream: rng.Chance(0.5)}
 	nH := 2 + rng.Intn(4)
 	for i := 0; i < nH; i++ {
 		sc.Ops = append(sc.Ops, sop{Kind: opMake, F: genFilter(rng), Cl: rng.Pick(0, 1), Cap: rng.Pick(0, 1, 2, 3, 8, 40)})
@@ -754,7 +754,7 @@ func runC10(res *hx.Result, rng *hx.Rng, tier string, outdir string) {
 	res.Rule = "N goroutines (2..15) calling EndPoint.Send concurrently, message sizes 0..300 kB, over mem-pipe / unix / tcp (OS-chosen port) / tls / fd-passing pipe and over a " +
 		"harness stream whose Write alternates between goroutines; receiving endpoint with a catch-all handler (arrival order) and table / stateful / small-queue / one-shot filters; " +
 		"operation sequences with 2..6 handlers and 8..40 messages replayed on the model; non-trivial = the arrival order changes sender at least as often as there are senders, " +
-		"or a dispatch script has >= 2 handlers; distinct by sha256 of (transport, arrival order) or of the script text"
+		"or a dispatch c17script has >= 2 handlers; distinct by sha256 of (transport, arrival order) or of the c17script text"
 	path := filepath.Join(outdir, "C10_child.json")
 	os.Remove(path)
 	cmd := exec.Command(os.Args[0], "--seed", fmt.Sprint(res.Seed), "--tier", tier, "--out", outdir, "C10.child")
